@@ -33,10 +33,23 @@ ExtensionSignedIffFee ==
      IN /\ (HeaderPreimage(com2) # HeaderPreimage(v)) = e.hasfee
         /\ (HeaderPreimage(alpha2) # HeaderPreimage(v)) = e.hasfee
 
-Out(cs) == [id |-> cs.id, kind |-> cs.kind, site |-> cs.site, form |-> cs.form, x |-> cs.x, ok |-> Verdict(cs)]
+\* stream entry points: limit = Len(x) (= limit 0) and limit = Len(x) - 1
+StreamRoundTrip == c.kind \in StreamKinds => StreamRoundTrips(c.kind, c.x, 0) /\ StreamRoundTrips(c.kind, c.x, Len(c.x) - 1)
+\* DecodeBytes = stream decode that consumed everything (the documented difference, nothing else)
+BytesIsStreamPlusNoTrailing ==
+  c.kind \in StreamKinds => LET d == StreamDecode(c.kind, c.x, 0) IN Verdict(c) = (d.ok /\ d.n = Len(c.x))
+StreamOut(kind, x, limit) == LET d == StreamDecode(kind, x, limit) IN [ok |-> d.ok, n |-> IF d.ok THEN d.n ELSE 0]
+Out(cs) == IF cs.kind \in StreamKinds
+           THEN [id |-> cs.id, kind |-> cs.kind, site |-> cs.site, form |-> cs.form, x |-> cs.x, ok |-> Verdict(cs),
+                 s0 |-> StreamOut(cs.kind, cs.x, 0),
+                 s1 |-> IF Len(cs.x) > 1 THEN StreamOut(cs.kind, cs.x, Len(cs.x) - 1) ELSE [ok |-> FALSE, n |-> 0]]
+           ELSE [id |-> cs.id, kind |-> cs.kind, site |-> cs.site, form |-> cs.form, x |-> cs.x, ok |-> Verdict(cs)]
 Tables == [legacySigned |-> LegacySigned, dynSigned |-> DynSigned, legacyHashed |-> LegacyHashed, dynHashed |-> DynHashed,
            headerSignedWithFee |-> HeaderSignedWithFee, headerSignedNoFee |-> HeaderSignedNoFee,
            maxClauses |-> MaxClauses, maxUnused |-> MaxUnused,
+           receiptBound |-> ReceiptBound,
+           receiptBases |-> LET q == SetToSeq(ReceiptBases) IN
+                            [i \in 1..Len(q) |-> [type |-> q[i].type, reverted |-> q[i].reverted, amounts |-> q[i].amounts, outputs |-> q[i].outputs]],
            headerBases |-> LET q == SetToSeq(HeaderBases) IN
                            [i \in 1..Len(q) |-> [baseFee |-> q[i].baseFee, alpha |-> q[i].alpha, com |-> q[i].com, gas |-> q[i].gas,
                                                   signed |-> HeaderSignedFor(q[i])]],
